@@ -3,7 +3,7 @@
 //! usage: record_serial <out.ndjson> <seed> <max-events> [--pairs <file>]
 //!
 //! With `--pairs <file>` (lines "cmp <a> <b>" / "add <a> <n>" / "bump <a> 0" /
-//! "place <ts> <r> <era>", decimal u32)
+//! "place <ts> <r> <era>" / "text <era> <v>", decimal u32)
 //! the given calls are performed and recorded instead of generated ones: used
 //! to put sweep disagreements before TLC and to re-confirm a rejected event
 //! in isolation.
@@ -76,6 +76,21 @@ fn place_ev(w: &mut TraceWriter, cur: u32, era: u32, r: u32) {
     w.event(json!({"ev": "place", "era": era, "r": limbs(r), "t": t}));
 }
 
+/// A signature time era * 2^32 + v is written as a real date and as an
+/// integer and read through FromStr, Timestamp::scan and the zone-file reader
+/// (all entry points must agree); the machine's serial becomes what was read.
+fn text_ev(w: &mut TraceWriter, era: u32, v: u32) -> Option<u32> {
+    let t = ((era as u64) << 32) + v as u64;
+    let got = std::panic::catch_unwind(|| text_entry_points(t, t));
+    let (res, next) = match got {
+        Ok(Ok((a, _))) => (json!({"ok": limbs(a)}), Some(a)),
+        Ok(Err(e)) => (json!({"err": e}), None),
+        Err(_) => (json!({"panic": true}), None),
+    };
+    w.event(json!({"ev": "text", "era": era, "v": limbs(v), "date": civil(t), "got": res}));
+    next
+}
+
 fn add_ev(w: &mut TraceWriter, cur: u32, n: u32) -> Option<u32> {
     let lib = lib_add(cur, n);
     let res = |r: Option<u32>| match r {
@@ -117,6 +132,10 @@ fn main() {
                     "bump" => {
                         bump_ev(&mut w, &rt, a);
                     }
+                    // "text <era> <v>"
+                    "text" => {
+                        text_ev(&mut w, a, b);
+                    }
                     // "place <ts> <r> <era>"
                     "place" => place_ev(&mut w, a, nums.next().unwrap_or(0), b),
                     _ => {}
@@ -156,6 +175,20 @@ fn main() {
                 _ => any(&mut rng),
             };
             place_ev(&mut w, cur, era, r);
+            continue;
+        }
+        // a signature time read from text (date form and integer form), in
+        // era 0, 1 or 2; later comparisons use what was read
+        if rng.chance(1, 12) {
+            let era = rng.below(3) as u32;
+            let v = match rng.below(4) {
+                0 => *rng.pick(&[0u32, 1, H - 1, H, H + 1, 0xFFFF_FFFF, 0xFFFF_FFFE]),
+                1 => boundary(&mut rng),
+                _ => any(&mut rng),
+            };
+            if let Some(x) = text_ev(&mut w, era, v) {
+                cur = x;
+            }
             continue;
         }
         match rng.below(10) {
